@@ -529,10 +529,16 @@ impl Drop for RecvStream {
         }
         let mut conn = self.conn.state.lock("RecvStream::drop");
 
+        // A rejected 0-RTT stream no longer exists and its ID may have been reused by a stream
+        // opened after the handshake: its waker registration belongs to that stream's handle.
+        if self.is_0rtt && conn.check_0rtt().is_err() {
+            return;
+        }
+
         // clean up any previously registered wakers
         conn.blocked_readers.remove(&self.stream);
 
-        if conn.error.is_some() || (self.is_0rtt && conn.check_0rtt().is_err()) {
+        if conn.error.is_some() {
             return;
         }
 
